@@ -68,11 +68,23 @@ CV_PTRQ_CTOR(pq_ctor, SQ)
 CV_PTRQ_DTOR(pq_dtor, SQ)
 CV_PTRQ_EMPTY(pq_empty, SQ)
 CV_PTRQ_FRONT(pq_front, SQ, GCB)
-CV_PTRQ_POP(pq_pop, SQ)
+/* pop(): CV_PTRQ_POP of lib/model_ptrq_ring.c plus the ORDER obligation of the clause "destroying the aggregate while parked WAITS for
+ * in-flight asynchronous sources": the aggregate waits for a source by taking that source's completion from this queue (the aggregator
+ * loop, and the drain of ~generator_aggregator_controller when the parked aggregate is dropped).  A wait that comes after a source
+ * coroutine has been destroyed comes too late - the in-flight step of that source would complete into a dead frame / a dead callback.
+ * Source frames are counted by lib/model_heap_frames_src.c (reset per scenario in drive_reset()). */
+void pq_pop(SQ *q) { PQ_TOUCH("pop()"); __CPROVER_assert(pq_head < pq_tail, "std::queue::pop() on a non-empty queue");
+  __CPROVER_assert(gh_src_frames_destroyed == 0, "C14-ORDER-wait-before-destroy: at every wait of the aggregate for a source (pop of its completion queue, in particular the drain of ~generator_aggregator_controller when the parked aggregate is dropped) no source generator of this aggregate has been destroyed yet");
+  pq_head++; gh_pq_pops++; }
 #ifdef CV_HAS_pq_emplace
 CV_PTRQ_EMPLACE(pq_emplace, SQ, GCB)
 #endif
 #endif
+/* the dual, at the moment a source coroutine frame is released (hook of lib/model_heap_frames_src.c): every source that was asked for
+ * its next value has been waited for.  With the scripted synchronous sources an asked source has reported at once, so "in flight" is
+ * exactly "completion still in the queue". */
+void cv_on_src_frame_destroy(void) {
+  __CPROVER_assert(pq_head == pq_tail, "C14-ORDER-destroy-after-wait: a source generator is destroyed only after the aggregate has waited for every in-flight source (no source's completion is still unconsumed in the aggregate's completion queue)"); }
 /* single_item_queue<promise<GenCallback*>> - the slot where a consumer of cocls::queue parks when the queue is empty.  With synchronous
  * sources every source has reported before the aggregator asks, so the slot stays empty: that is an OBLIGATION here (and a model bound:
  * the std::optional inside is not translated - ir2c maps the LLVM types `_Optional_payload.base` and `_Optional_payload_base` onto the
